@@ -196,7 +196,7 @@ def summarize(prop, h, tier, seed, cases, results, lemma_obs, wall):
             if o.get('inputs') is not None and hasattr(h, 'replay'):
                 try: rep = h.replay(cases[o['case']] if o['case'] >= 0 else None, o, o['inputs'])
                 except Exception as e: rep = {'confirmed': False, 'error': traceback.format_exc()[-600:]}
-            witnesses.append({'inputs': o.get('inputs'), 'info': o.get('info'), 'case': _case_repr(cases, o['case']), 'case_obj': cases[o['case']] if o['case'] >= 0 else None, 'replay': rep})
+            witnesses.append({'inputs': o.get('inputs'), 'info': o.get('info'), 'path_prefix': o.get('prefix'), 'case': _case_repr(cases, o['case']), 'case_obj': cases[o['case']] if o['case'] >= 0 else None, 'replay': rep})
         confirmed = [w for w in witnesses if w['replay'] and w['replay'].get('confirmed')]
         fn = os.path.join(VERIF, 'replays', f'{prop}-{_safe(name)}.json')
         doc = {'property': prop, 'obligation': name, 'tier': tier, 'n_refuted_paths': len(os_), 'witnesses': witnesses,
